@@ -411,3 +411,230 @@ theorem frame_insert_step {Y : Forest} {keep : Keep} {dest : Dest} {t : HTree} {
     omega
 
 end XotModel
+
+namespace XotModel
+open HTree Spec
+
+theorem specRemove_root {f : Forest} {keep : Keep} {n : Nat} (h : f.parent? n = none) :
+    specRemove keep n f = f.editAt none (dropTop n) := by
+  unfold specRemove; rw [h]; rfl
+
+theorem specRemove_kid {f : Forest} {keep : Keep} {n p : Nat} (h : f.parent? n = some p) :
+    specRemove keep n f = f.editAt (some p) (mergeOpt f.consolidation keep ∘ dropTop n) := by
+  unfold specRemove
+  rw [h, mergeAt_eq_mergeOpt, Forest.editAt_consolidation, Forest.editAt_editAt]
+
+/-- Handles after `specRemove`: those of the removed subtree are gone (and at most one merged text node). -/
+theorem count_specRemove {f : Forest} {keep : Keep} {n : Nat} {t : HTree} (nd : f.allHandles.Nodup)
+    (hg : f.get? n = some t) (z : Nat) :
+    (specRemove keep n f).allHandles.count z + (handles t).count z ≤ f.allHandles.count z := by
+  rcases Forest.root_or_ctx hg with hroot | ⟨c, hctx⟩
+  · rw [specRemove_root (Forest.parent?_of_no_ctx (Forest.ctx_none_of_root nd hroot))]
+    exact Nat.le_of_eq (count_dropTop_root nd hg hroot z)
+  · obtain ⟨e0, v, so⟩ := SiteAt.of_ctx nd hctx
+    have hself : c.self = t := by
+      have := Forest.get?_of_ctx nd hctx
+      rw [hg] at this
+      exact (Option.some.inj this).symm
+    obtain ⟨p, l, k, r⟩ := c
+    simp only at e0 so hself
+    subst hself
+    subst e0
+    have hpar : f.parent? k.handle = some p := Forest.parent?_of_ctx hctx
+    rw [specRemove_kid hpar]
+    obtain ⟨ndL, _⟩ := so.nodupKids
+    obtain ⟨tl, tr⟩ := tops_ne_of_nodup ndL
+    have h1 := so.count (mergeOpt f.consolidation keep ∘ dropTop k.handle) z
+    simp only [Function.comp] at h1
+    rw [dropTop_mid rfl tl tr] at h1
+    have h2 := (mergeOpt_sublist f.consolidation keep (l ++ r)).count_le z
+    have h3 := count_handles_mid z l k r
+    omega
+
+/-- Frame of `specRemove` (and of the first half of a move). -/
+theorem frame_specRemove {f : Forest} {keep : Keep} {n : Nat} {t : HTree} (inv : f.Inv)
+    (hg : f.get? n = some t) {x : Nat} {cx : Ctx} (hx : f.ctx? x = some cx)
+    (h1 : some cx.parent ≠ f.parent? n) (h3 : cx.parent ∉ handles t) (h4 : x ∉ handles t) :
+    ∃ cx', (specRemove keep n f).ctx? x = some cx' ∧ cx'.shape = cx.shape := by
+  have nd := inv.nodup
+  rcases Forest.root_or_ctx hg with hroot | ⟨c, hctx⟩
+  · rw [specRemove_root (Forest.parent?_of_no_ctx (Forest.ctx_none_of_root nd hroot))]
+    refine ⟨cx, ?_, rfl⟩
+    show (dropTop n f.roots).findSome? (ctxBelow x) = some cx
+    rw [ctx_dropRoot f.roots (by
+      intro k hk hkn
+      rw [root_is nd hg k hk hkn]; exact h4)]
+    exact hx
+  · obtain ⟨e0, v, so⟩ := SiteAt.of_ctx nd hctx
+    have hself : c.self = t := by
+      have := Forest.get?_of_ctx nd hctx
+      rw [hg] at this
+      exact (Option.some.inj this).symm
+    obtain ⟨p, l, k, r⟩ := c
+    simp only at e0 so hself
+    subst hself
+    subst e0
+    have hpar : f.parent? k.handle = some p := Forest.parent?_of_ctx hctx
+    rw [hpar] at h1
+    have hne : cx.parent ≠ p := fun e => h1 (by rw [e])
+    rw [specRemove_kid hpar]
+    obtain ⟨ndL, _⟩ := so.nodupKids
+    obtain ⟨tl, tr⟩ := tops_ne_of_nodup ndL
+    have hleaf := so.leaf inv.valid
+    apply so.frame _ _ hx hne
+    · simp only [Function.comp]
+      rw [findList?_mergeOpt, findList?_dropTop]
+      · intro k' hk' hkc
+        have : k' = k := by
+          cases List.mem_append.1 hk' with
+          | inl h => exact absurd hkc (tl k' h)
+          | inr h =>
+            cases List.mem_cons.1 h with
+            | inl h' => exact h'
+            | inr h' => exact absurd hkc (tr k' h')
+        rw [this]; exact h3
+      · intro k' hk' hkt
+        rw [dropTop_mid rfl tl tr] at hk'
+        have hk'L : k' ∈ l ++ k :: r := by
+          cases List.mem_append.1 hk' with
+          | inl h => exact List.mem_append_left _ h
+          | inr h => exact List.mem_append_right _ (List.mem_cons_of_mem _ h)
+        have hkl := hleaf k' hk'L hkt
+        refine ⟨hkl, ?_⟩
+        obtain ⟨A, B, hAB⟩ := List.append_of_mem hk'L
+        have so' : SiteAt f p v (A ++ k' :: B) := hAB ▸ so
+        exact not_text_leaf_of_parent nd hx so'.getKid hkl
+    · apply Forest.nodup_editAt nd
+      intro L
+      exact (mergeOpt_sublist _ _ _).trans (handlesList_dropTop_sublist _ _)
+
+/-- **Frame of a move**: a node whose parent is neither the old nor the new parent of the moved
+    subtree and that does not lie in the moved subtree keeps value, parent and position. -/
+theorem frame_specMove {f : Forest} {keep : Keep} {dest : Dest} {c : Nat} {t : HTree} {q : Nat} {vq : Value}
+    {Lq : List HTree} (inv : f.Inv) (norm : f.Normal) (hkeep : ∀ a b, a ≠ c → keep a b = true)
+    (hgc : f.get? c = some t) (sq : SiteAt f q vq Lq) (hqt : q ∉ handles t) (hvq : vq.isText = false)
+    (hocc : dest.occupiedBy f c = false) (hsite : dest.site f = some q)
+    {x : Nat} {cx : Ctx} (hx : f.ctx? x = some cx)
+    (h1 : cx.parent ≠ q) (h2 : some cx.parent ≠ f.parent? c) (h3 : cx.parent ∉ handles t) (h4 : x ∉ handles t) :
+    ∃ cx', (specMove keep dest c f).ctx? x = some cx' ∧ cx'.shape = cx.shape := by
+  have nd := inv.nodup
+  have htc : t.handle = c := (findList?_some f.roots t hgc).1
+  have hleaft : t.value.isText = true → t.kids = [] ∧ t.handle ≠ cx.parent := by
+    intro ht
+    exact ⟨leaf_of_text inv.valid hgc ht, fun e => h3 (e ▸ handle_mem_handles t)⟩
+  have hleafq : ∀ k ∈ Lq, k.value.isText = true → k.kids = [] ∧ k.handle ≠ cx.parent := by
+    intro k hk hkt
+    have hkl := sq.leaf inv.valid k hk hkt
+    obtain ⟨A, B, hAB⟩ := List.append_of_mem hk
+    have sq' : SiteAt f q vq (A ++ k :: B) := hAB ▸ sq
+    exact ⟨hkl, not_text_leaf_of_parent nd hx sq'.getKid hkl⟩
+  cases hpar : f.parent? c with
+  | none =>
+    -- the moved node is a parentless tree
+    have hno : f.ctx? c = none := by
+      cases h : f.ctx? c with
+      | none => rfl
+      | some cc => rw [Forest.parent?_of_ctx h] at hpar; cases hpar
+    obtain ⟨cx1, hx1, hs1⟩ := frame_specRemove (keep := keep) inv hgc hx (by rw [hpar]; simp) h3 h4
+    have F := far_root (keep := keep) hgc hno sq hqt
+    rw [F.spec dest hocc hsite (fun ψ hk hψ => natFor_insert hk hψ dest), ← specRemove_root hpar]
+    have sY : SiteAt (specRemove keep c f) q vq Lq := by
+      rw [specRemove_root hpar]; exact sq.dropRoot hgc hqt
+    have hp1 : cx1.parent = cx.parent := congrArg Prod.fst hs1
+    obtain ⟨cx', h', hs'⟩ := frame_insert_step (keep := keep) (dest := dest) (t := t) sY
+      (fun z => by
+        have := count_specRemove (keep := keep) nd hgc z
+        have := (List.nodup_iff_count.1 nd) z
+        omega) hx1 (by rw [hp1]; exact h1) (by rw [hp1]; exact hleafq) (by rw [hp1]; exact hleaft)
+      (by rw [hp1]; exact h3)
+    exact ⟨cx', h', hs'.trans hs1⟩
+  | some po =>
+    rw [hpar] at h2
+    have hne_po : cx.parent ≠ po := fun e => h2 (by rw [e])
+    cases hctx : f.ctx? c with
+    | none => rw [Forest.parent?_of_no_ctx hctx] at hpar; cases hpar
+    | some cc =>
+      obtain ⟨e0, vo, so⟩ := SiteAt.of_ctx nd hctx
+      have hself : cc.self = t := by
+        have := Forest.get?_of_ctx nd hctx
+        rw [hgc] at this
+        exact (Option.some.inj this).symm
+      obtain ⟨po', l, k, r⟩ := cc
+      simp only at e0 so hself
+      subst hself
+      subst e0
+      have hpo' : po' = po := by
+        rw [Forest.parent?_of_ctx hctx] at hpar
+        exact Option.some.inj hpar
+      subst hpo'
+      by_cases hpq : po' = q
+      · -- same child list
+        subst hpq
+        have F := far_same (keep := keep) so
+        rw [F.spec dest hocc hsite (fun ψ hk hψ => natFor_insert hk hψ dest)]
+        obtain ⟨ndL, _⟩ := so.nodupKids
+        obtain ⟨tl, tr⟩ := tops_ne_of_nodup ndL
+        have hdrop : dropTop k.handle (l ++ k :: r) = l ++ r := dropTop_mid rfl tl tr
+        have hleafo := so.leaf inv.valid
+        obtain ⟨cx1, hx1, hs1⟩ := so.frame (dropTop k.handle)
+          (Forest.nodup_editAt nd (fun L => handlesList_dropTop_sublist _ L)) hx h1
+          (findList?_dropTop _ (by
+            intro k' hk' hkc
+            have : k' = k := by
+              cases List.mem_append.1 hk' with
+              | inl h => exact absurd hkc (tl k' h)
+              | inr h =>
+                cases List.mem_cons.1 h with
+                | inl h' => exact h'
+                | inr h' => exact absurd hkc (tr k' h')
+            rw [this]; exact h3))
+        have hp1 : cx1.parent = cx.parent := congrArg Prod.fst hs1
+        have sY : SiteAt (f.editAt (some po') (dropTop k.handle)) po' vo (l ++ r) := by
+          have := F.ysite; rw [List.map_id] at this; exact this
+        obtain ⟨cx', h', hs'⟩ := frame_insert_step (keep := keep) (dest := dest) (t := k) sY
+          (fun z => by
+            have h1 := so.count (dropTop k.handle) z
+            rw [hdrop] at h1
+            have h2 := count_handles_mid z l k r
+            have := (List.nodup_iff_count.1 nd) z
+            omega) hx1 (by rw [hp1]; exact h1)
+          (by
+            rw [hp1]
+            intro k' hk' hkt
+            have hk'L : k' ∈ l ++ k :: r := by
+              cases List.mem_append.1 hk' with
+              | inl h => exact List.mem_append_left _ h
+              | inr h => exact List.mem_append_right _ (List.mem_cons_of_mem _ h)
+            have hkl := hleafo k' hk'L hkt
+            obtain ⟨A, B, hAB⟩ := List.append_of_mem hk'L
+            have so' : SiteAt f po' vo (A ++ k' :: B) := hAB ▸ so
+            exact ⟨hkl, not_text_leaf_of_parent nd hx so'.getKid hkl⟩)
+          (by rw [hp1]; exact hleaft) (by rw [hp1]; exact h3)
+        exact ⟨cx', h', hs'.trans hs1⟩
+      · -- another child list
+        obtain ⟨cx1, hx1, hs1⟩ := frame_specRemove (keep := keep) inv hgc hx (by rw [hpar]; exact h2) h3 h4
+        obtain ⟨⟨φ, F⟩, _⟩ := far_kid (keep := keep) inv norm hkeep so sq hpq hqt hvq
+        rw [F.spec dest hocc hsite (fun ψ hk hψ => natFor_insert hk hψ dest)]
+        have hY : (f.editAt (some po') (dropTop k.handle)).mergeAt keep (some po') = specRemove keep k.handle f := by
+          unfold specRemove; rw [hpar]
+        rw [hY]
+        have sY : SiteAt (specRemove keep k.handle f) q vq (Lq.map φ) := hY ▸ F.ysite
+        have hp1 : cx1.parent = cx.parent := congrArg Prod.fst hs1
+        obtain ⟨cx', h', hs'⟩ := frame_insert_step (keep := keep) (dest := dest) (t := k) sY
+          (fun z => by
+            have := count_specRemove (keep := keep) nd hgc z
+            have := (List.nodup_iff_count.1 nd) z
+            omega) hx1 (by rw [hp1]; exact h1)
+          (by
+            rw [hp1]
+            intro k' hk' hkt
+            obtain ⟨k0, hk0, e⟩ := List.mem_map.1 hk'
+            subst e
+            rw [F.kid.value] at hkt
+            refine ⟨F.yleaf (sq.leaf inv.valid) _ hk' (by rw [F.kid.value]; exact hkt), ?_⟩
+            rw [F.kid.handle]
+            exact (hleafq k0 hk0 hkt).2)
+          (by rw [hp1]; exact hleaft) (by rw [hp1]; exact h3)
+        exact ⟨cx', h', hs'.trans hs1⟩
+
+end XotModel
